@@ -100,7 +100,12 @@ func (f *Frame) HasImage() bool {
 // toNRGBA converts any image.Image to *image.NRGBA.
 func toNRGBA(src image.Image) *image.NRGBA {
 	if nrgba, ok := src.(*image.NRGBA); ok {
-		return nrgba
+		if nrgba.Rect.Min == (image.Point{}) {
+			return nrgba
+		}
+		// The callers index the result from (0,0): present the same pixels
+		// (Pix[0] is the pixel at Rect.Min) with the bounds moved to the origin.
+		return &image.NRGBA{Pix: nrgba.Pix, Stride: nrgba.Stride, Rect: nrgba.Rect.Sub(nrgba.Rect.Min)}
 	}
 	b := src.Bounds()
 	dst := image.NewNRGBA(image.Rect(0, 0, b.Dx(), b.Dy()))
